@@ -152,8 +152,9 @@ class Emitter:
                 # an unexported name added to the previous leaf's declaration:  N3, x7 int32 `parquet:"n3"`
                 self.nx += 1
                 if lines and self.last_leaf_line == len(lines) - 1:
-                    head, rest = lines[-1].lstrip("\t").split(" ", 1)
-                    lines[-1] = "\t%s, x%d %s" % (head, self.nx, rest)
+                    # the declaration may already name several fields (N3, x7): add the new name after the last one
+                    m = re.match(r"^\t((?:\w+, )*\w+) (.*)$", lines[-1])
+                    lines[-1] = "\t%s, x%d %s" % (m.group(1), self.nx, m.group(2))
                 else:
                     lines.append("\tx%d, y%d int32" % (self.nx, self.nx))
             elif f[0] == "excluded":
